@@ -1035,6 +1035,32 @@ func (s *State) mapLookup(m MapRef, k Value) (Value, bool) {
 func (s *State) sliceOp(fr *Frame, in *ssa.Slice) Value {
 	x := s.get(fr, in.X)
 	var lo, hi, max int64 = 0, -1, -1
+	// a symbolic bound is first split into "within 0..cap" and "outside" (the
+	// latter is Go's bounds panic), so that only the cap+1 in-range values are
+	// enumerated afterwards
+	limit := int64(-1)
+	switch v := x.(type) {
+	case Slice:
+		limit = int64(v.Cap)
+	case string:
+		limit = int64(len(v))
+	case *SymStr:
+		limit = int64(len(v.B))
+	}
+	if limit >= 0 {
+		for _, opnd := range []ssa.Value{in.Low, in.High, in.Max} {
+			if opnd == nil {
+				continue
+			}
+			if t, ok := s.get(fr, opnd).(*Term); ok && !t.IsConst() {
+				p := s.W.Pool
+				inRange := p.And(p.App("bvsge", SortBool, t, p.BVConst(0, t.S.W)), p.App("bvsle", SortBool, t, p.BVConst(uint64(limit), t.S.W)))
+				if !s.decide(inRange, "slice-bound") {
+					s.goPanicRuntime(fmt.Sprintf("slice bounds out of range [symbolic bound] with capacity %d", limit), "boundsError")
+				}
+			}
+		}
+	}
 	if in.Low != nil {
 		lo = s.concreteInt(s.get(fr, in.Low), "slice low")
 	}
@@ -1145,7 +1171,40 @@ func (s *State) nextOp(in *ssa.Next, it Value) Value {
 		pos := s.heap.get(v.cell).V.(int64)
 		str, ok := s.concreteStr(v.str)
 		if !ok {
-			s.abort("range over a string with symbolic bytes")
+			// symbolic bytes are ASCII in every harness (checked on the byte domain): such a
+			// byte is a rune of width 1 and ends any multi-byte sequence before it, so the
+			// concrete run up to it is decoded by the host as Go would decode it
+			ss := toSymStr(v.str)
+			if int(pos) >= len(ss.B) {
+				return Tuple{false, int64(0), int64(0)}
+			}
+			if t, isTerm := ss.B[pos].(*Term); isTerm && !t.IsConst() {
+				if t.Op != "var" {
+					s.abort("range over a string: compound symbolic byte")
+				}
+				dom := s.byteDomain(t)
+				if dom[2]|dom[3] != 0 {
+					s.abort("range over a string: symbolic byte may be non-ASCII")
+				}
+				s.heap.own(v.cell).V = pos + 1
+				return Tuple{true, pos, s.W.Pool.ZeroExtend(t, 32)}
+			}
+			var run []byte
+			for k := int(pos); k < len(ss.B); k++ {
+				c, isC := ss.B[k].(uint64)
+				if !isC {
+					if t, isTerm := ss.B[k].(*Term); isTerm && t.IsConst() {
+						c, isC = t.UVal, true
+					}
+				}
+				if !isC {
+					break
+				}
+				run = append(run, byte(c))
+			}
+			r, n := utf8.DecodeRune(run)
+			s.heap.own(v.cell).V = pos + int64(n)
+			return Tuple{true, pos, int64(r)}
 		}
 		if int(pos) >= len(str) {
 			return Tuple{false, int64(0), int64(0)}
